@@ -189,8 +189,11 @@ pub fn related_sets(rng: &mut Rng, n: usize, max_tiles: usize, mixed_comp: bool,
 	let format = fmt.unwrap_or(*rng.pick(&[TileFormat::PNG, TileFormat::JPG, TileFormat::BIN, TileFormat::JSON, TileFormat::WEBP]));
 	let base_comp = *rng.pick(&comp::ALL);
 	let levels: Vec<u8> = {
-		let z0 = rng.below(12) as u8;
-		(0..rng.range(1, 4) as u8).map(|i| z0 + i * rng.range(1, 2) as u8).collect()
+		// now and then the deepest levels there are (28..31)
+		let z0 = if rng.chance(0.2) { 28 + rng.below(3) as u8 } else { rng.below(12) as u8 };
+		let mut v: Vec<u8> = (0..rng.range(1, 4) as u8).map(|i| (z0 + i * rng.range(1, 2) as u8).min(31)).collect();
+		v.dedup();
+		v
 	};
 	if rng.chance(0.25) {
 		// "jigsaw": all sources scatter over the same small window inside one cell of the operators' 32 x 32 grid, each
